@@ -15,7 +15,8 @@ $(HO)/%.o: $(E)/%.cpp $(EHDR) $(GEN)/masa.h
 	@mkdir -p $(HO)
 	$(CXX) $(CXXF) -c $< -o $@
 
-NUM_OBJS := $(HO)/specs.o $(HO)/numcase.o
+NUM_OBJS := $(HO)/specs.o $(HO)/numcase.o $(HO)/cmirror.o
+$(HO)/cmirror.o: $(GEN)/api_gen.hpp
 
 $(BIN)/num.%: $(HO)/num_main.o $(NUM_OBJS) $(B)/lib/%/libmasa.a
 	@mkdir -p $(BIN)
